@@ -108,7 +108,7 @@ def finish(prop, tier, obs, t0, level, functions, assumptions, trusted_base, che
         if ob.status == FAILED:
             hit = None
             for k in known.get("findings", []):
-                if k["property"] == prop and k["obligation"] == ob.id and (k.get("signature") in (None, ob.signature)):
+                if k["property"] == prop and k["obligation"] == ob.id and (k.get("signature") is None or (ob.signature or "").find(k["signature"]) >= 0):
                     hit = k
             if hit is not None and ob.finding:
                 known_hits.append((ob, hit))
